@@ -12,6 +12,7 @@ CONSTANTS
   FollowRetries = TRUE
   FollowAppend = TRUE
   ResyncChecksRound = TRUE
+  PinsOperatorHash = TRUE
   MaxAgg = 1
   QCap = 2
   Linger = TRUE
